@@ -168,3 +168,29 @@ Theorem C10_push_preserves : forall c s v read p sd_ expire tag now sd,
   qinv_full c p (push_state s p sd_ expire tag now sd).
 Proof. exact push_preserves. Qed.
 Print Assumptions C10_push_preserves.
+
+(* ------------------------------------------------------------------ concurrency: the queue calls in the micro-step machine
+   push / pull / peek with their real transaction bodies (model/TxnQueue.v) are calls of the machine of model/Conc.v:
+   for every program of such calls (mixed with set/add/delete/pop/touch/incr/get/contains), every number of clients
+   and every schedule with kills, the machine invariant holds, and the commit step of a pull that delivers an item
+   removes exactly that row -- which was committed and in the prefix's range -- atomically, under the write lock, so no
+   second pull can deliver it.  harness/queuecorr.py drives this instance by the schedules of the implementation. *)
+From DC Require Import Refs Conc Txn TxnQueue SinvFacts ConcFacts TxnFacts TxnQueueFacts.
+Theorem C10_queue_schedules : forall c (progs : nat -> list qcall) sched,
+  let cf := exec (init_config init_st (fun i => map (qcompile c) (progs i))) sched in
+  Inv refs Winv cf /\ Winv (db cf) /\ (forall g, In g (refs (db cf)) -> files cf g = FDone) /\
+  forall i retry p sd now f o k raw v e t,
+    c_pc (cl cf i) = AtCommit (w_pull retry c p sd now) f o -> bo_res o = RKV k raw v e t ->
+    exists r0 cf',
+      In r0 (rows (db cf)) /\ in_range p r0 = true /\ rkey r0 = k /\
+      cstep cf i = Some cf' /\
+      rows (db cf') = filter (fun r => negb (rowid r =? rowid r0)) (rows (db cf)) /\
+      ~ In r0 (rows (db cf')) /\
+      (forall r, In r (rows (db cf)) -> r <> r0 -> In r (rows (db cf'))) /\
+      commits cf' = commits cf ++ [(i, db cf')] /\ lock cf' = None.
+Proof. exact queue_schedules. Qed.
+Print Assumptions C10_queue_schedules.
+
+Theorem C10_queue_call_is_step : forall c x s, Winv s -> qcall_side c x s -> qcall_run c x s = qcall_step c x s.
+Proof. exact qcall_run_is_step. Qed.
+Print Assumptions C10_queue_call_is_step.
